@@ -467,7 +467,7 @@ def slice_chains(quick=True):
 CONV_FORMS = ("assign", "signal", "variable", "temporary", "varassign")
 
 
-def conversions(widths):
+def conversions(widths, operand_src_widths=None):
     """every documented conversion (src type, width) -> (dst type, width) in every form, and conversions used as
     operands of arithmetic / comparison with a value of the target type"""
     widths = list(widths)
@@ -484,7 +484,7 @@ def conversions(widths):
                 if t not in seen and well_typed(t):
                     seen.add(t)
                     yield "conv", t
-            if V.is_num(dst) and src != dst:
+            if V.is_num(dst) and src != dst and (operand_src_widths is None or V.width(src) in operand_src_widths):
                 for form in ("temporary", "signal"):
                     c = ("conv", form, dst, L(src))
                     for tree in (("bin", "add", c, L(dst)), ("bin", "sub", L(dst), c), ("bin", "mul", c, L(dst)),
